@@ -307,7 +307,7 @@ StepResult(st, o, c, sc) ==
          LET b == sc.obs[st.same_as] IN
          [C |-> c, why |->
             IF st.op = "dump" THEN
-                 (IF sc.obs[st.after].oc # "ok" THEN ""
+                 (IF sc.obs[st.after].oc # "ok" \/ (Has(st, "stepat") /\ sc.obs[st.stepat].oc # "ok") THEN ""     \* (already reported at that step)
                   ELSE IF ~SameVars(o, b) THEN "final variables differ between batch and statement-at-a-time execution" ELSE "")
             ELSE IF b.oc # "ok" THEN ""              \* the unit did not compile and run without error: nothing is promised
             ELSE IF o.oc # "ok" THEN "ran as one unit, but statement-at-a-time reported " \o o.oc \o " " \o Fld(o, "name", "")
